@@ -29,9 +29,9 @@ CONSTANTS TombLogOn,
           FifoOrder,      \* BOOLEAN: one flusher, default pickers, no deletes, no restart: blocks are reclaimed oldest-filled first (C09)
           ReinsertKeys    \* keys the reinsertion filter admits (C09)
 
-VARIABLES img, tpages, stored, last, acked, written, fillOrder, laterDel, l, bad
+VARIABLES img, tpages, stored, last, acked, written, fillOrder, laterDel, ondev, l, bad
 
-tvars == <<img, tpages, stored, last, acked, written, fillOrder, laterDel, l, bad>>
+tvars == <<img, tpages, stored, last, acked, written, fillOrder, laterDel, ondev, l, bad>>
 
 Rec == ndJsonDeserialize(IOEnv.TRACE)
 
@@ -78,7 +78,7 @@ ProbeBad(im, tp, res) ==
 TraceInit ==
     /\ img = Img0 /\ tpages = <<>> /\ stored = [k \in Keys |-> {}]
     /\ last = [k \in Keys |-> NoOp] /\ acked = [k \in Keys |-> NoOp] /\ written = {}
-    /\ fillOrder = <<>> /\ laterDel = [k \in Keys |-> FALSE]
+    /\ fillOrder = <<>> /\ laterDel = [k \in Keys |-> FALSE] /\ ondev = {}
     /\ l = 1 /\ bad = {}
 
 TraceNext ==
@@ -89,23 +89,27 @@ TraceNext ==
               /\ last' = [k \in Keys |-> NoOp] /\ acked' = [k \in Keys |-> NoOp] /\ written' = {} /\ bad' = {}
               /\ fillOrder' = <<>>
               /\ laterDel' = [k \in Keys |-> FALSE]
+              /\ ondev' = {}
          [] e.a = "sub" ->
               /\ stored' = [stored EXCEPT ![e.k] = @ \cup {e.v}]
               /\ last' = [last EXCEPT ![e.k] = [kind |-> "ins", n |-> e.v]]
               /\ UNCHANGED <<img, tpages, acked, written>> /\ bad' = {}
               /\ UNCHANGED fillOrder
               /\ UNCHANGED laterDel
+              /\ UNCHANGED ondev
          [] e.a = "del" ->
               \* n = the next version number: anything newer than the delete has a version >= n
               /\ last' = [last EXCEPT ![e.k] = [kind |-> "del", n |-> e.n]]
               /\ UNCHANGED <<img, tpages, stored, acked, written>> /\ bad' = {}
               /\ UNCHANGED fillOrder
               /\ laterDel' = [laterDel EXCEPT ![e.k] = TRUE]
+              /\ UNCHANGED ondev
          [] e.a = "ack" ->
               /\ acked' = last
               /\ UNCHANGED <<img, tpages, stored, last, written>> /\ bad' = {}
               /\ UNCHANGED fillOrder
               /\ laterDel' = [k \in Keys |-> FALSE]
+              /\ UNCHANGED ondev
          [] e.a = "w" ->
               LET ps == Pages(e.ps)
                   isIndex == Len(ps) = 1 /\ ps[1].t = "idx" IN
@@ -121,11 +125,13 @@ TraceNext ==
               /\ fillOrder' = IF (Len(Pages(e.ps)) # 1 \/ Pages(e.ps)[1].t # "idx") /\ ~\E i \in DOMAIN fillOrder : fillOrder[i] = e.b
                               THEN Append(fillOrder, e.b) ELSE fillOrder
               /\ UNCHANGED laterDel
+              /\ ondev' = ondev \cup {Pages(e.ps)[j].v : j \in {j \in DOMAIN Pages(e.ps) : Pages(e.ps)[j].t = "ent"}}
          [] e.a = "tw" ->
               /\ tpages' = [p \in (DOMAIN tpages) \cup {e.p} |-> IF p = e.p THEN e.ts ELSE tpages[p]]
               /\ UNCHANGED <<img, stored, last, acked, written>> /\ bad' = {}
               /\ UNCHANGED fillOrder
               /\ UNCHANGED laterDel
+              /\ UNCHANGED ondev
          [] e.a = "clean" ->
               \* a block was reclaimed: its first page zeroed (the ack rule then no longer applies to its keys)
               /\ img' = WritePages(img, e.b, 0, <<Zero>>)
@@ -135,6 +141,7 @@ TraceNext ==
                         THEN {<<"C09", "not_oldest_filled_block_reclaimed", e.b>>} ELSE {}
               /\ fillOrder' = SelectSeq(fillOrder, LAMBDA x : x # e.b)
               /\ UNCHANGED laterDel
+              /\ UNCHANGED ondev
          [] e.a = "q" ->
               LET ix == Rebuild(img, IF TombLogOn THEN Tombs(tpages) ELSE {})
                   sc == ConcatScans(img, BlockSeq(Blocks))
@@ -147,11 +154,14 @@ TraceNext ==
                                   THEN {<<"C07", "claimed_key_not_loadable", k>>} ELSE {})
                             \* C09: whatever was reclaimed meanwhile, a key whose latest insert was acknowledged reads as
                             \* that version or as a miss; a key the reinsertion filter admits survives
+                            \* (a version that never reached the device - shed by a full flush buffer or write queue, the
+                            \* documented overload limits - is not one the disk tier can be asked for)
                             \cup (IF e.res[i] # 0 /\ acked[k] = last[k] /\ acked[k].kind = "ins" /\ ~Collides(k)
+                                     /\ acked[k].n \in ondev
                                      /\ e.res[i] \in stored[k] /\ e.res[i] # acked[k].n
                                   THEN {<<"C09", "older_version_after_reclaim", k>>} ELSE {})
                             \cup (IF e.res[i] # 0 /\ e.res[i] \notin stored[k] THEN {<<"C09", "damaged_entry_surfaced", k>>} ELSE {})
-                            \cup (IF k \in ReinsertKeys /\ acked[k] = last[k] /\ acked[k].kind = "ins" /\ e.res[i] = 0
+                            \cup (IF k \in ReinsertKeys /\ acked[k] = last[k] /\ acked[k].kind = "ins" /\ acked[k].n \in ondev /\ e.res[i] = 0
                                   THEN {<<"C09", "reinserted_entry_lost", k>>} ELSE {})
                             \* right after a restart the live index is exactly what the scanner and recovery rebuilt
                             \cup (IF e.res[i] # Lookup(img, ix, k)
@@ -162,11 +172,13 @@ TraceNext ==
               /\ UNCHANGED <<img, tpages, stored, last, acked, written>>
               /\ UNCHANGED fillOrder
               /\ UNCHANGED laterDel
+              /\ UNCHANGED ondev
          [] e.a = "probe" ->
               /\ bad' = ProbeBad(img, tpages, e.res)
               /\ UNCHANGED <<img, tpages, stored, last, acked, written>>
               /\ UNCHANGED fillOrder
               /\ UNCHANGED laterDel
+              /\ UNCHANGED ondev
          [] e.a = "fprobe" ->
               \* C03: a fault was applied to a copy of the image (the harness re-classified the pages of every
               \* block it touched, and the tombstone page if that was hit); the copy was opened and every key
@@ -188,12 +200,14 @@ TraceNext ==
               /\ UNCHANGED <<img, tpages, stored, last, acked, written>>
               /\ UNCHANGED fillOrder
               /\ UNCHANGED laterDel
+              /\ UNCHANGED ondev
          [] e.a = "tprobe" ->
               \* the first pages of the next block write reached the device before the crash
               /\ bad' = ProbeBad(WritePages(img, e.b, e.o, Pages(e.ps)), tpages, e.res)
               /\ UNCHANGED <<img, tpages, stored, last, acked, written>>
               /\ UNCHANGED fillOrder
               /\ UNCHANGED laterDel
+              /\ UNCHANGED ondev
     /\ l' = l + 1
 
 TraceSpec == TraceInit /\ [][TraceNext]_tvars
